@@ -480,4 +480,5 @@ def run(ctx):
     from rules import families as _fam
     _fam.reader(ctx, "C08", module=True)
     _fam.mapping_list(ctx, "C08")
+    _fam.module_ident(ctx, "C08")
 
